@@ -148,6 +148,9 @@ pub struct State {
     /// For each journal entry, the index of the faultable call that produced it.
     pub journal_call: Vec<u64>,
     faults: BTreeMap<u64, Fault>,
+    /// Faults addressed by (class, path, n-th call of that class on that path since arming).
+    path_faults: Vec<(Class, String, u64, FaultKind)>,
+    path_counts: BTreeMap<(Class, String), u64>,
     /// From this call index on, every write/mkdir/open(O_CREAT) fails with ENOSPC.
     disk_full_from: Option<u64>,
     call: u64,
@@ -159,10 +162,16 @@ pub struct State {
 
 static ACTIVE: AtomicBool = AtomicBool::new(false);
 static STATE: Mutex<Option<State>> = Mutex::new(None);
+/// Entropy stream of the simulator's main thread (everything the system under test decides
+/// with hash-map order happens there) and a separate one for all other threads (blocking
+/// pool), so that the real-time order in which threads ask for entropy cannot change what the
+/// main thread gets.
 static ENTROPY: Mutex<Rng> = Mutex::new(Rng::zero());
+static ENTROPY_OTHER: Mutex<Rng> = Mutex::new(Rng::zero());
 
 thread_local! {
     static IN_HOOK: Cell<bool> = const { Cell::new(false) };
+    static IS_MAIN: Cell<bool> = const { Cell::new(false) };
 }
 
 struct Reent;
@@ -195,6 +204,8 @@ fn set_errno(e: c_int) {
 /// Seed the entropy handed out by `getrandom`.
 pub fn seed_entropy(seed: u64) {
     *ENTROPY.lock().unwrap() = Rng::new(seed);
+    *ENTROPY_OTHER.lock().unwrap() = Rng::new(seed ^ 0x07E2_07E2_07E2);
+    IS_MAIN.with(|m| m.set(true));
 }
 
 /// Start observing `root` (absolute path, no trailing slash).
@@ -206,6 +217,8 @@ pub fn start(root: &str, keep_trace: bool) {
         journal: vec![],
         journal_call: vec![],
         faults: BTreeMap::new(),
+        path_faults: vec![],
+        path_counts: BTreeMap::new(),
         disk_full_from: None,
         call: 0,
         stats: Stats::default(),
@@ -245,7 +258,19 @@ pub fn add_fault(f: Fault) {
 pub fn clear_faults() {
     with_state(|s| {
         s.faults.clear();
+        s.path_faults.clear();
+        s.path_counts.clear();
         s.disk_full_from = None;
+    })
+}
+/// Arm a fault for the `nth` call (from now) of `class` on `path` (root-relative).
+pub fn add_path_fault(class: Class, path: &str, nth: u64, kind: FaultKind) {
+    with_state(|s| s.path_faults.push((class, path.to_string(), nth, kind)))
+}
+pub fn set_keep_trace(on: bool) {
+    with_state(|s| {
+        s.keep_trace = on;
+        s.trace.clear();
     })
 }
 pub fn set_disk_full_from(call: Option<u64>) {
@@ -307,6 +332,35 @@ impl State {
             self.trace.push((idx, class, path.to_string()));
         }
         let mut kind = None;
+        if !self.path_faults.is_empty() {
+            // wildcard faults "prefix/*": n-th call of the class on any path below prefix
+            for i in 0..self.path_faults.len() {
+                let (c, p, nth, k) = self.path_faults[i].clone();
+                if c == class {
+                    if let Some(prefix) = p.strip_suffix('*') {
+                        if path.starts_with(prefix) {
+                            let n = self.path_counts.entry((class, p.clone())).or_default();
+                            let cur = *n;
+                            *n += 1;
+                            if cur == nth {
+                                kind = Some(k);
+                            }
+                        }
+                    }
+                }
+            }
+            let key = (class, path.to_string());
+            let n = self.path_counts.entry(key).or_default();
+            let cur = *n;
+            *n += 1;
+            if let Some(f) = self
+                .path_faults
+                .iter()
+                .find(|f| f.0 == class && f.1 == path && f.2 == cur)
+            {
+                kind = Some(f.3);
+            }
+        }
         if let Some(f) = self.faults.get(&idx) {
             if f.class.is_none() || f.class == Some(class) {
                 kind = Some(f.kind);
@@ -926,7 +980,12 @@ pub unsafe extern "C" fn getrandom(buf: *mut c_void, len: size_t, _flags: c_uint
         return 0;
     }
     let out = unsafe { std::slice::from_raw_parts_mut(buf as *mut u8, len) };
-    let mut g = match ENTROPY.lock() {
+    let src = if IS_MAIN.with(|m| m.get()) {
+        &ENTROPY
+    } else {
+        &ENTROPY_OTHER
+    };
+    let mut g = match src.lock() {
         Ok(g) => g,
         Err(p) => p.into_inner(),
     };
